@@ -691,6 +691,14 @@ class Explorer:
         # ---- next(generator-expression, default): look-up
         if isinstance(f, ast.Name) and f.id == 'next' and node.args and isinstance(node.args[0], ast.GeneratorExp):
             return self.lookup(node, st)
+        # a bound method handed over as a value (`on_done=entered_event.succeed`) and called through the parameter: the same effect as calling it directly
+        if isinstance(f, ast.Name) and not node.args and not node.keywords:
+            fv = st.env.get(f.id)
+            if isinstance(fv, tuple) and len(fv) == 3 and fv[0] == 'attr' and fv[2] == 'succeed':
+                self.emit(st, 'succeed', node, target=f.id, value=fv[1])
+                st.triggered.add(fv[1])
+                self.invalidate(st, '.triggered')
+                return [(NONE, st)]
         if isinstance(f, ast.Name) and f.id == 'len' and len(node.args) == 1:
             l = self.try_lin(node, st)
             if l is not None:
@@ -1119,6 +1127,8 @@ class Explorer:
             return False
         if v[0] == 'callres' and v[1][:1].isupper():
             return False          # result of a constructor call
+        if v[0] == 'attr' and len(v) == 3 and v[2] in ('succeed', 'interrupt', 'fail'):
+            return False          # a bound method of an event / process handed over as a value
         if name is not None and name in st.notnone:
             return False
         return None
